@@ -37,7 +37,7 @@ PDOCFN = "signac_project_document.json"
 OLDTXT = '{"old": 1}'          # content of a stale roll-back copy (Sync.tla: OLDTXT)
 NOW = 9
 DEVIATIONS = ["DryCopyRaises", "DryCopytreeMkdirs", "DryNestedDocWrites", "ProjDeepDropped",
-              "CopytreeIgnoresExclude", "DircmpIgnoreList", "DryJobNeedsDstDir", "CloneExcludeHitsSpecial", "CliFilterOnCwd"]
+              "CopytreeIgnoresExclude", "DircmpIgnoreList", "DryJobNeedsDstDir", "CloneExcludeHitsSpecial", "SpecialByPrefix", "CliFilterOnCwd"]
 REQS = {
     "C13": ["Superset", "FilesArrive", "DstOnlyUntouched", "SrcUntouched", "Idempotent", "NothingElse"],
     "C14": ["OverwriteIffStrategy", "ConflictLeavesFile", "DocOverwriteIffKeyStrategy", "DocRollbackExact"],
@@ -599,7 +599,7 @@ def _case(src_jobs, dst_jobs, **opts):
     o = {"strategy": "none", "custom": [], "docSync": "bykey", "keysel": [], "recursive": False,
          "exclude": {"on": False, "names": []}, "selection": {"on": False, "ids": []}, "checkSchema": False,
          "deep": False, "dryRun": False, "parallel": "no", "entry": "Project.sync", "jid": "j1", "order": ["j1", "j2"],
-         "nord": sorted(["f", "g", "s", "tags", DOCFN, DOCFN + "~"]), "kord": ["k", "n", "old", "x", "y"], "sps": {"j1": {"a": "1"}, "j2": {"a": "2"}}}
+         "nord": sorted(["f", "g", "s", "tags", DOCFN, DOCFN + "~", SPFN, SPFN + ".bak"]), "kord": ["k", "n", "old", "x", "y"], "sps": {"j1": {"a": "1"}, "j2": {"a": "2"}}}
     ex = opts.pop("exclude", None)
     if ex == "*":
         o["exclude"] = {"on": True, "names": list(o["nord"]), "sp": True, "doc": True}
@@ -626,6 +626,8 @@ PROBES = {
                          lambda r: "tags" not in r["post"]["jobs"]["j1"]["dir"]["f"]),
     "CloneExcludeHitsSpecial": (lambda: _case({"j1": dict(files={"f": ("A", 1)})}, {}, exclude="*"),
                                 lambda r: "j1" in r["post"]["jobs"] and not r["post"]["jobs"]["j1"]["sp"]),
+    "SpecialByPrefix": (lambda: _case({"j1": dict(files={SPFN + ".bak": ("A", 1), "g": ("A", 1)})}, {"j1": {}}, entry="Job.sync"),
+                        lambda r: SPFN + ".bak" not in r["post"]["jobs"]["j1"]["dir"]["f"]),
     "DryJobNeedsDstDir": (lambda: _case({"j1": dict(files={"f": ("A", 1)})}, {}, entry="Job.sync", dryRun=True),
                           lambda r: r["res"] == "FileNotFoundError"),
 }
@@ -654,7 +656,7 @@ CONTENTS = ["A", "B", "CC", "DD", "EEE", "", "@20480:a", "@20480:m", "@20480:f",
 
 def _rand_dir(rnd, depth, tags):
     d = {"f": {}, "d": {}}
-    for n in FILE_NAMES + (["tags"] if tags else []):
+    for n in FILE_NAMES + (["tags", SPFN + ".bak", "signac_statepointXjson", DOCFN + ".orig"] if tags else []):
         if rnd.random() < 0.45:
             c = rnd.choice(CONTENTS)
             d["f"][n] = {"data": c, "size": len(expand(c)), "mtime": rnd.randint(1, 4)}
@@ -662,6 +664,8 @@ def _rand_dir(rnd, depth, tags):
         for n in DIR_NAMES:
             if rnd.random() < 0.35:
                 d["d"][n] = _rand_dir(rnd, depth - 1, False)
+                if tags and rnd.random() < 0.4:          # an embedded project / exported sub-tree: a nested file named like the state point file
+                    d["d"][n]["f"][SPFN] = {"data": "B", "size": 1, "mtime": 1}
     return d
 
 
@@ -934,7 +938,8 @@ def selftest(ctx, prop, flags, work):
 
 NEED = {
     "C13": ["clone", "sync-existing", "leftonly-file", "leftonly-nested", "dst-only-file", "dst-only-key", "excluded-src-file",
-            "unselected-src-job", "job-dst-absent", "multi-job", "empty-selection", "res:ok", "res:SchemaSyncConflict"],
+            "unselected-src-job", "job-dst-absent", "multi-job", "empty-selection", "special-like-name-top", "special-name-nested-common-dir",
+            "special-name-nested-source-only-dir", "res:ok", "res:SchemaSyncConflict"],
     "C14": ["diff-newer", "diff-older", "diff-eqtime", "diff-shallow-equal", "diff-nested", "diff-large-before-last-block", "diff-large-last-byte", "doc-conflict", "doc-conflict-nested",
             "doc-conflict-with-mergeable-key", "doc-mixed-type", "doc-map-over-plain", "doc-mixed-type-nested", "stale-backup", "stale-backup-at-doc-conflict",
             "res:ok", "res:FileSyncConflict", "res:DocumentSyncConflict", "res:TypeError", "res:RuntimeError"],
